@@ -55,7 +55,7 @@ def cases(ctx):
     for j in range((2400 if ctx.tier == 'quick' else 100000) // ctx.nshards + 1):
         yield {'kind': 'file', 'salt': rng.randint(0, 10 ** 9)}
     for j in range((60 if ctx.tier == 'quick' else 600) // ctx.nshards + 1):
-        yield {'kind': 'refusal', 'salt': rng.randint(0, 10 ** 9), 'what': rng.choice(['no_trailer', 'unconfigured_table'])}
+        yield {'kind': 'refusal', 'salt': rng.randint(0, 10 ** 9), 'what': ('no_trailer', 'unconfigured_table', 'empty_layout', 'null_layout')[j % 4], 'route': ('class', 'csv_cli')[(j + ctx.shard) % 2]}
 
 
 def build(ctx, rng):
@@ -161,13 +161,35 @@ def judge(ctx, case):
         if case['what'] == 'no_trailer':
             recs = [r for r in recs if not r.startswith('TRAILER RECORD IP0000T1'.encode(enc))]
             table = sorted(x['tables'])[0]
-        else:
+        elif case['what'] == 'unconfigured_table':
             table = 'IP7777T1'
+        else:
+            # the table is named in the configuration, but what stands there is no layout: an empty one, or none at all
+            table = sorted(x['tables'])[0]
+        tables = dict(x['tables'])
+        if case['what'] in ('empty_layout', 'null_layout'):
+            tables[table] = {} if case['what'] == 'empty_layout' else None
         s = refb.vbs(recs)
         data = refb.block(s) if blocked else s
-        kind, val = ctx.call(lambda: list(m.IpmParamReader(io.BytesIO(data), table, encoding=enc, param_config=x['tables'],
-                                                          blocked=blocked)), budget=4000000)
+        if case.get('route') == 'csv_cli':
+            if not getattr(ctx, 'tmpdir', None):
+                ctx.tmpdir = tempfile.mkdtemp(prefix='vmon-c18-')
+            paths = [os.path.join(ctx.tmpdir, nm) for nm in ('r_in.bin', 'r_out.csv', 'r_cardutil.json')]
+            with open(paths[0], 'wb') as f:
+                f.write(data)
+            with open(paths[2], 'w') as f:
+                json.dump({'mci_parameter_tables': tables}, f)
+            argv = [paths[0], table, '-o', paths[1], '--in-encoding', enc, '--config-file', paths[2]] + ([] if blocked else ['--no1014blocking'])
+
+            def cli():
+                with contextlib.redirect_stdout(io.StringIO()):
+                    ctx.tool.cli_run(**vars(ctx.tool.cli_parser().parse_args(argv)))
+            kind, val = ctx.call(cli, budget=4000000)
+        else:
+            kind, val = ctx.call(lambda: list(m.IpmParamReader(io.BytesIO(data), table, encoding=enc, param_config=tables,
+                                                              blocked=blocked)), budget=4000000)
         ctx.count('refusal cases: ' + case['what'])
+        ctx.count('refusal cases through ' + (case.get('route') or 'class'))
         if kind == 'steps':
             ctx.violation('refusal:step_budget', {'case': case})
         elif kind == 'ok':
@@ -280,6 +302,12 @@ def require(m):
     reasons = []
     if set(m['classes'].get('routes', ())) != {'class', 'csv_tool', 'csv_cli'}:
         reasons.append('class, function and command routes not all driven')
+    for route in ('class', 'csv_cli'):
+        if not m['counters'].get('refusal cases through ' + route) and not m['violations']:
+            reasons.append('refusals never driven through ' + route)
+    for what in ('no_trailer', 'unconfigured_table', 'empty_layout', 'null_layout'):
+        if not m['counters'].get('refusal cases: ' + what) and not m['violations']:
+            reasons.append('refusal class never driven: ' + what)
     for route in ('class', 'csv_tool', 'csv_cli'):
         if not m['counters'].get('requests leaving the layout to the packaged configuration: ' + route) and not m['violations']:
             reasons.append('packaged table never requested without a layout through ' + route)
